@@ -7,8 +7,8 @@
 //! postcard, decompress it with the REAL `decompress_with` against the same context".
 //! States = distinct context contents (the full context is the state key, nothing is
 //! hidden), explored breadth-first from the empty context through ALL 12 pool
-//! transactions in every state, depth 3 (quick: every ordered history of length ≤ 3,
-//! 1 + 12 + 144 + 1,728 histories) / depth 4 (thorough: + 20,736). Histories that reach
+//! transactions in every state, depth 4 (quick: every ordered history of length ≤ 4,
+//! 1 + 12 + 144 + 1,728 + 20,736 histories) / depth 6 (thorough: 3,257,437). Histories that reach
 //! the same context are merged (the transition function is deterministic in
 //! (context, tx)); states and executed transitions are counted as such.
 //!
@@ -1061,7 +1061,7 @@ fn explore(ctx: &Ctx) {
     ctx.rule(
         "breadth-first exploration of the compression context: from every distinct context reached, each of the 12 \
          pool transactions is registered, compressed, postcard-round-tripped and decompressed against that context \
-         (depth 3 quick / 4 thorough; contexts reached by several histories are merged, the transition is a \
+         (depth 4 quick / 6 thorough; contexts reached by several histories are merged, the transition is a \
          deterministic function of (context, transaction)); plus RegistryKey::next on all 2^24 keys. A transition \
          is non-trivial when compression, the postcard round trip and decompression all succeeded and produced a \
          transaction; distinct = distinct (context, transaction) pairs (+3 key classes)",
@@ -1091,7 +1091,7 @@ fn explore(ctx: &Ctx) {
         json!({"tables": TABLES, "first_key_per_table": TABLES.iter().zip(START_OFFSETS).map(|(t, o)| (t.to_string(), format!("{:#x}", RegistryKey::MAX_WRITABLE.as_u32() - o))).collect::<BTreeMap<_, _>>(),
                "MAX_WRITABLE": format!("{:#x}", RegistryKey::MAX_WRITABLE.as_u32()), "DEFAULT_VALUE": format!("{:#x}", RegistryKey::DEFAULT_VALUE.as_u32())}),
     );
-    let depth = ctx.pick(3usize, 4usize);
+    let depth = ctx.pick(4usize, 6usize);
     let model = Compression { pool };
     let stats = bfs(&model, depth, u64::MAX, ctx);
     let histories: u64 = (0..=depth as u32).map(|d| 12u64.pow(d)).sum();
